@@ -218,8 +218,20 @@ def run_case(spec, res, fmt, facets, ncell, dg, nc_handles, pncgen):
                 try:
                     import PseudoNetCDF as pnc
                     pn = os.path.join(d, 'via.nc')
-                    o0 = f.save(pn, format='NETCDF3_CLASSIC', verbose=0)
-                    o0.close()
+                    if spec['seed'] % 2 == 0:
+                        # the netCDF copy as another tool would store it:
+                        # fields packed into short integers (lossy: what the
+                        # copy delivers is the content to be written)
+                        try:
+                            harness.write_foreign(f, pn,
+                                                  flavour='NETCDF3_CLASSIC')
+                            facets.append('netcdf-copy-packed')
+                        except Exception:
+                            if os.path.exists(pn):
+                                os.remove(pn)
+                    if not os.path.exists(pn):
+                        o0 = f.save(pn, format='NETCDF3_CLASSIC', verbose=0)
+                        o0.close()
                     f = pnc.pncopen(pn, format='netcdf')
                     nc_handles.append(f)
                 except Exception as e:
